@@ -124,6 +124,9 @@ pub enum Val {
     Str(String),
     /// a divert-target value (not an allowed host argument type)
     Divert(String),
+    /// `()`: a list without items and without origins; assigned over a list, the stored value
+    /// keeps that list's origins, so what is stored differs from what was passed
+    EmptyList,
 }
 
 impl Val {
@@ -136,6 +139,7 @@ impl Val {
             Val::Divert(s) => ValueType::DivertTarget(
                 verif::audit::Path::new_with_components_string(Some(s)),
             ),
+            Val::EmptyList => ValueType::List(verif::audit::InkList::new()),
         }
     }
     pub fn to_json(&self) -> Value {
@@ -145,6 +149,7 @@ impl Val {
             Val::Float(f) => json!({"float": f}),
             Val::Str(s) => json!({"str": s}),
             Val::Divert(s) => json!({"divert": s}),
+            Val::EmptyList => json!({"empty_list": true}),
         }
     }
     pub fn from_json(v: &Value) -> Val {
@@ -156,6 +161,8 @@ impl Val {
             Val::Float(f.as_f64().unwrap() as f32)
         } else if let Some(s) = v.get("str") {
             Val::Str(s.as_str().unwrap().to_string())
+        } else if v.get("empty_list").is_some() {
+            Val::EmptyList
         } else {
             Val::Divert(v.get("divert").unwrap().as_str().unwrap().to_string())
         }
@@ -335,7 +342,19 @@ pub fn err_kind(e: &StoryError) -> &'static str {
     }
 }
 
+/// The plain form: what Ink's rules (refint, the C07 evaluator) define for a value.
 pub fn render_vt(v: &ValueType) -> String {
+    render_vt_with(v, false)
+}
+
+/// The lockstep form: as `render_vt`, and an empty list also shows the LISTs it remembers
+/// (its origin names), which LIST_ALL / LIST_INVERT and the save format depend on. Used where two
+/// runs of the implementation are compared with each other (observed globals, observer events).
+pub fn render_vt_o(v: &ValueType) -> String {
+    render_vt_with(v, true)
+}
+
+fn render_vt_with(v: &ValueType, origins: bool) -> String {
     match v {
         ValueType::Bool(b) => format!("Bool({b})"),
         ValueType::Int(i) => format!("Int({i})"),
@@ -348,6 +367,15 @@ pub fn render_vt(v: &ValueType) -> String {
                 .map(|(k, v)| format!("{}={}", k.get_full_name(), v))
                 .collect();
             items.sort();
+            if origins && items.is_empty() {
+                // an empty list still knows which LISTs it came from (LIST_ALL / LIST_INVERT use it)
+                let mut o = l.get_origin_names();
+                o.sort();
+                o.dedup();
+                if !o.is_empty() {
+                    return format!("List[]of({})", o.join(","));
+                }
+            }
             format!("List[{}]", items.join(","))
         }
         ValueType::DivertTarget(p) => format!("Divert({p})"),
@@ -371,7 +399,7 @@ impl VariableObserver for Observer {
             "obs:o{}:{}={}@{}",
             self.id,
             variable_name,
-            render_vt(value),
+            render_vt_o(value),
             l
         ));
     }
@@ -835,7 +863,7 @@ impl Inst {
                 g.insert(
                     name.clone(),
                     match story.get_variable(name) {
-                        Some(v) => json!(render_vt(&v)),
+                        Some(v) => json!(render_vt_o(&v)),
                         None => Value::Null,
                     },
                 );
